@@ -23,9 +23,10 @@ const (
 	skExact
 	skSparse
 	skSuperset
+	skPoison // the requested cells at their value, plus everything else it holds at a WRONG value (+1000003)
 )
 
-var storeKindCoq = []string{"SKStatic", "SKExact", "SKSparse", "SKSuperset"}
+var storeKindCoq = []string{"SKStatic", "SKExact", "SKSparse", "SKSuperset", "SKPoison"}
 
 type storeCall struct {
 	balances numscript.BalanceQuery // nil for a metadata call
@@ -41,6 +42,31 @@ type testStore struct {
 	ncalls  int
 	log     []storeCall
 	static_ numscript.StaticStore
+	alias   bool // equal amounts of one answer share ONE *big.Int: legal for a store, fatal for a caller that writes into what it is given
+}
+
+// aliasEqual makes the cells of b that hold equal amounts point to one and the same number
+func aliasEqual(b numscript.Balances) numscript.Balances {
+	seen := map[string]*big.Int{}
+	for _, a := range sortedKeys(b) {
+		for _, c := range sortedKeys(b[a]) {
+			k := b[a][c].String()
+			if p, ok := seen[k]; ok {
+				b[a][c] = p
+			} else {
+				seen[k] = b[a][c]
+			}
+		}
+	}
+	return b
+}
+
+func (s *testStore) aliased() *testStore {
+	s.alias = true
+	if s.kind == skStatic {
+		aliasEqual(s.bal) // the bundled store hands out its own maps
+	}
+	return s
 }
 
 func newStore(kind storeKind, bal numscript.Balances, meta numscript.AccountsMetadata, failAt int) *testStore {
@@ -67,6 +93,9 @@ func (s *testStore) GetBalances(ctx context.Context, q numscript.BalanceQuery) (
 		// the bundled store: returns its own maps
 		return s.static_.GetBalances(ctx, q)
 	case skSuperset:
+		if s.alias {
+			return aliasEqual(deepCopyBalances(s.bal)), nil
+		}
 		return deepCopyBalances(s.bal), nil
 	}
 	out := numscript.Balances{}
@@ -85,6 +114,30 @@ func (s *testStore) GetBalances(ctx context.Context, q numscript.BalanceQuery) (
 				out[a][c] = big.NewInt(0)
 			}
 		}
+	}
+	if s.kind == skPoison {
+		for a, m := range s.bal {
+			for c, v := range m {
+				asked := false
+				for _, qc := range q[a] {
+					if qc == c {
+						asked = true
+					}
+				}
+				if _, has := q[a]; !has {
+					asked = false
+				}
+				if !asked {
+					if out[a] == nil {
+						out[a] = numscript.AccountBalance{}
+					}
+					out[a][c] = new(big.Int).Add(v, big.NewInt(1000003))
+				}
+			}
+		}
+	}
+	if s.alias {
+		aliasEqual(out)
 	}
 	return out, nil
 }
